@@ -136,8 +136,24 @@ def generate(rng, tier):
         k0 = rng.randrange(0, side ** 3 - ncpu)
         step = 8 ** (lmax + 1 - nb_)
         p["bound_keys"] = [(k0 + i) * step for i in range(1, ncpu)]
+    tall = (not deep) and p["ordering"] == "hilbert" and p["ndim"] == 3 and rng.random() < 0.1
+    if tall:
+        # a run set up for deep refinement (levelmax 20-30 in the info file, Hilbert keys beyond 2**60) of which only the first
+        # few levels are populated yet
+        p.update(levelmin=rng.choice([2, 2, 3]), levelmax=rng.choice([20, 21, 24, 30]), maxcells=min(p["maxcells"], 600), refine_p=min(p.get("refine_p", 0.3), 0.3),
+                 bound_keys=None, ncpu=max(p["ncpu"], rng.choice([3, 5, 6])))
+        p["bound_frac"] = sorted(rng.random() for _ in range(p["ncpu"] - 1))
     leaves = World(p).leaves()
-    sels = [gen_selection(rng, p, leaves) for _ in range(rng.choice([1, 2, 3]))]
+    psel = dict(p, levelmax=max(c["level"] for c in leaves) + 1) if tall else p  # (boxes on the scale of the populated levels)
+    sels = [gen_selection(rng, psel, leaves) for _ in range(rng.choice([1, 2, 3]) if not tall else 4)]
+    if tall:
+        # half of the boxes near the end of the Hilbert curve (x high, y and z low), where the keys are largest
+        for s_ in sels[:2]:
+            if len(s_["intervals"]) == 3 and all(i_["lo"] is not None and i_["hi"] is not None for i_ in s_["intervals"]):
+                for i_, hi_side in zip(s_["intervals"], (True, False, False)):
+                    w_ = min(i_["hi"] - i_["lo"], 0.3)
+                    a_ = rng.uniform(0.0, 0.2)
+                    i_["lo"], i_["hi"] = (1.0 - a_ - w_, 1.0 - a_) if hi_side else (a_, a_ + w_)
     if deep:
         sels = []
         for _ in range(8):
